@@ -30,6 +30,7 @@ def run(ctx):
     ctx.tlc("MC_Wire", "MC_Wire_mut_" + t, replay="wire")
     # every truncation and substitution of longer containers (9 / 17 / 33 / 64 elements)
     ctx.tlc("MC_Wire", "MC_Wire_bigmut_" + t, replay="wire")
+    ctx.tlc("MC_Wire", "MC_Wire_dupkeys", replay="wire")
     ctx.tlc("MC_Wire", "MC_Wire_announce_" + t, replay="wire")
     ctx.tlc("MC_Wire", "MC_Wire_tagged_" + t, replay="wire")
     n = 10000 if ctx.quick else 300000
